@@ -31,7 +31,7 @@ from fractions import Fraction
 NUMERIC = ('num', 'int')
 LEAN_TY = {'num': 'α', 'int': 'Int', 'nat': 'Nat', 'bool': 'Bool', 'truthy': 'Bool', 'optint': 'Option Int',
            'optnum': 'Option α', 'effect': 'Nat', 'dictnum': 'α', 'dictint': 'Int', 'dictoptint': 'Option Int',
-           'listnum': 'List α', 'flag': 'Nat'}
+           'listnum': 'List α', 'listflagnum': 'List (Bool × α)', 'flag': 'Nat'}
 RAISED = {'AssertionError': 1, 'ValueError': 2, 'TypeError': 3, 'KeyError': 4}     # values of a `raised : flag` field (0 = nothing raised)
 RESERVED = {'s', 'at', 'from', 'end', 'then', 'else', 'fun', 'let', 'have', 'show', 'do', 'match', 'with', 'if', 'in',
             'open', 'def', 'theorem', 'where', 'by', 'Type', 'Prop', 'α', 'true', 'false', 'some', 'none'}
